@@ -557,6 +557,45 @@ def run_table_index(chk, spec):
 
 RUNNERS.update({"table_index": run_table_index})
 
+
+def run_table_key_kinds(chk, spec):
+	"""every kind of row key a vector takes selects the same rows from every column of a table; a key no vector takes is refused by the
+	table too - no key is answered with None"""
+	import warnings
+	ts = spec["table"]
+	n = len(ts["cols"][0])
+	kind = spec["key"]
+	idxs = [n - 1, 0, 0] if n else []
+	keys = {"int-list": lambda: list(idxs), "int-list-negative": lambda: [-1] if n else [], "int-vector": lambda: Vector(list(idxs)) if idxs else None, "float": lambda: 1.5, "none": lambda: None,
+		"float-list": lambda: [0.0], "str-list": lambda: ["0"], "set": lambda: {0}, "nullable-mask-with-none": lambda: Vector([True if i % 2 else None for i in range(n)]) if n else None, "bytes": lambda: b"a", "range": lambda: range(0, n)}
+	k = keys[kind]()
+	if k is None and kind != "none":
+		chk.skip("table-key-not-available")
+		return
+	with warnings.catch_warnings():
+		warnings.simplefilter("ignore")
+		t = common.mk_table(ts)
+		per_col = [call(lambda c=c: Vector(list(c))[keys[kind]()]) for c in ts["cols"]]
+		o = call(lambda: t[k])
+	chk.judged("table-rows", ("table-key-kind", kind, min(n, 3), len(ts["cols"])))
+	if o.ok and o.value is None:
+		chk.fail("a row selection gives rows or an error", f"table-key/answered-with-None/{kind}", f"{spec!r}: t[{k!r}] returned None (a vector answers {per_col[0]!r})")
+		return
+	if all(p.ok for p in per_col):
+		if not o.ok:
+			chk.fail("the same row selection is applied to every column alike", f"table-key/raises/{kind}/{type(o.exc).__name__}", f"{spec!r}: t[{k!r}] raised {o!r}; each column alone gives {short([list(p.value) for p in per_col], 160)}")
+			return
+		got = [list(c._underlying) for c in o.value._underlying] if isinstance(o.value, Table) else None
+		exp = [list(p.value._underlying) for p in per_col]
+		if got is None or len(got) != len(exp) or any(not M.same_list(g, e) for g, e in zip(got, exp)):
+			if not (not exp[0] and (got is None or not got or not got[0])):
+				chk.fail("the same row selection is applied to every column alike", f"table-key/wrong-rows/{kind}", f"{spec!r}: t[{k!r}] gave {short(got if got is not None else o.value, 160)}; each column alone gives {short(exp, 160)}")
+	elif not any(p.ok for p in per_col) and o.ok:
+		chk.fail("a key no column accepts is not a row selection", f"table-key/accepted/{kind}", f"{spec!r}: t[{k!r}] returned {short(o.value, 120)} though every column refuses that key ({per_col[0]!r})")
+
+
+RUNNERS.update({"table_key_kinds": run_table_key_kinds})
+
 def run_self_compare(chk, spec):
 	# x <op> x, the object itself on both sides (a vector, a row kept from a table, a whole table): the same answer as x <op> (an equal,
 	# separate object) - the library copies an operand that is the left operand itself, and that copy has to work for every kind of vector
@@ -942,6 +981,8 @@ def run(chk):
 		chk.case("table_rows", {"table": ts, "rows": gen_rows(rng, n, allow_wrong=True)}, "table-rows")
 		if n and len(set(ts["names"])) == len(ts["names"]):
 			chk.case("self_compare", {"table": ts, "target": rng.choice(["table", "row", "column"]), "i": rng.randrange(n), "opname": rng.choice(["eq", "ne", "lt", "le", "gt", "ge"])}, "compare")
+		if n and len(set(ts["names"])) == len(ts["names"]):
+			chk.case("table_key_kinds", {"table": ts, "key": rng.choice(["int-list", "int-list-negative", "int-vector", "float", "none", "float-list", "str-list", "set", "nullable-mask-with-none", "bytes", "range"])}, "table-key-kinds")
 		if n:
 			chk.case("table_index", {"table": ts, "i": rng.choice([-n - 2, -n - 1, -n, -1, 0, n - 1, n, n + 1, n + 5, rng.randrange(-n, n)])}, "table-rows")
 		rows = gen_rows(rng, n)
